@@ -34,30 +34,36 @@ PROPS["C17"] = {
 PROPS["C18"] = {
     "lean_modules": ["MithrilModel.Properties.C18"],
     "theorems": [
-        "C18.C18_bounded", "C18.C18_fresh", "C18.C18_handout_fresh", "C18.C18_stale_not_readmitted",
-        "C18.C18_tag_race_counterexample", "C18.C18_item_giveback_counterexample_prefix", "C18.C18_item_giveback_fixed",
+        "C18.C18_bounded", "C18.C18_fresh", "C18.C18_fresh_every_interleaving", "C18.C18_handout_fresh", "C18.C18_stale_not_readmitted",
+        "C18.C18_tag_race_counterexample", "C18.C18_tag_race_repaired", "C18.C18_item_giveback_counterexample_prefix", "C18.C18_item_giveback_fixed",
+        "Pool.run_inv",
     ],
-    "level_text": "Freshness and the bound are Lean invariants over every reachable state of an API-granular model of the pool, for any "
-                  "number of users and any pool size (induction over call sequences); the model is compared call by call with the real "
-                  "ResourcePool on exhaustive short schedules and random protocol-shaped ones, and freshness/bound are evaluated on the "
-                  "real pool's hand-outs. The residual tag race (acquire between set_discriminant and clear) is a proved counter-example "
-                  "and a listed known finding. Wake-up is only exercised by a real-thread test (partial).",
+    "level_text": "Freshness and the bound are Lean invariants over every state reachable by ANY interleaving of the calls the provers make "
+                  "(acquire, explicit give-back, drop, refill, clear, reset, the one-step start_new_generation) by any number of users and for "
+                  "any pool size (induction over call sequences, no side condition); the model is compared call by call with the real "
+                  "ResourcePool on exhaustive short schedules and random protocol-shaped ones, freshness/bound are evaluated on the real pool's "
+                  "hand-outs, the sequence of pool calls in compute_cache of both provers is read from the working tree and compared with the "
+                  "protocol the theorem is about, and two sub-API schedules on real threads (through the cfg-guarded sync point) check that the "
+                  "bound test and the generation test are made under the lock. The three defects found (item give-back, bound outside the "
+                  "lock, tag race of the two-call refresh) are repaired; their counter-examples are kept. Wake-up is only exercised by a "
+                  "real-thread test (partial).",
     "level_note": "Trusted: Lean kernel, harness; atomicity of each public call with respect to the queue is read from the lock "
-                  "structure of resource_pool.rs (one critical section per call after the fix commits), not verified; Condvar/OS "
-                  "scheduling is outside the model.",
+                  "structure of resource_pool.rs (one critical section per call after the fix commits) and probed by the two sub-API "
+                  "schedules, not verified; Condvar/OS scheduling is outside the model. The pool's API still offers the two-call refresh "
+                  "(set_discriminant, clear): schedules using it are compared by K and counted, but lie outside the provers' protocol.",
     "harness": [("harness", "c18")],
     "anchors": ["internal/mithril-resource-pool/src/resource_pool.rs", "mithril-aggregator/src/services/prover.rs",
                 "mithril-aggregator/src/services/prover_legacy.rs"],
     "rule": "case = (pool size, initial content, sequence of API calls by logical users: acquire, explicit give-back, drop, "
-            "set_discriminant, clear, give_back_resource(refill), reset) followed by a drain; exhaustive over an 11-letter alphabet to "
-            "depth 4 (quick) / 6 (thorough) for sizes 1-2, plus random schedules of 5-60 calls, half with adjacent and half with "
-            "split refreshes; every schedule is non-trivial; distinct = distinct request lines",
+            "set_discriminant, clear, give_back_resource(refill), reset, start_new_generation) followed by a drain; exhaustive over a 12-letter "
+            "alphabet to depth 4 (quick) / 6 (thorough) for sizes 1-2, plus random schedules of 5-60 calls, half following the provers' protocol "
+            "(one-step generation change, refill interleaved with anything) and half with the two-call refresh of the API; the pool calls of "
+            "compute_cache read from prover.rs and prover_legacy.rs; every schedule is non-trivial; distinct = distinct request lines",
     "trivial_tags": [],
     "trusted_base": ["rustc/cargo; harness hcore/c18"],
-    "assumptions": ["each public call of ResourcePool is atomic w.r.t. the queue (lock structure as read)",
+    "assumptions": ["each public call of ResourcePool is atomic w.r.t. the queue (lock structure as read, probed at the sync point)",
                     "liveness of Condvar wake-ups is not modelled; exercised by one real-thread test per run"],
-    "goals_not_proved": ["C18_fresh_full_goal is FALSE on the current tree (C18_tag_race_counterexample): known finding C18-tag-race",
-                         "C18_wake (T2) not stated as a theorem"],
+    "goals_not_proved": ["C18_wake (T2) not stated as a theorem"],
 }
 
 PROPS["C08"] = {
